@@ -104,6 +104,8 @@ async def replay(d: MailDriver, states, drift):
         elif act == "Fetch":
             await d.fetch(s, _set(ev), what="flags" if ev["peek"] else "flagsbody",
                           uid=ev["uid"])
+        elif act == "Status":
+            await d.status(s, ev["mbox"])
         elif act == "Search":
             await d.search(s, ev["key"], uid=ev["uid"])
         elif act == "Expunge":
